@@ -516,7 +516,16 @@ class PDE(SDEBase):
         # check the cache
         cache = self._cache.get(backend.name, {})
         if state.attributes == cache.get("state_attributes", None):
-            return cache  # this cache was already prepared
+            # Also compare the mesh for MPI simulations since equal subgrids of
+            # different meshes can have different neighbors and boundary conditions
+            mesh, mesh_cached = state.grid._mesh, cache.get("grid_mesh", None)
+            if mesh is mesh_cached or (
+                mesh is not None
+                and mesh_cached is not None
+                and mesh.basegrid == mesh_cached.basegrid
+                and mesh.shape == mesh_cached.shape
+            ):
+                return cache  # this cache was already prepared
         cache = self._cache[backend.name] = {}  # clear cache, if there was any
 
         # determine the dtype of the rhs
@@ -631,6 +640,7 @@ class PDE(SDEBase):
         # last expression of the method, so the cache is only valid when the
         # prepare function worked successfully
         cache["state_attributes"] = state.attributes
+        cache["grid_mesh"] = state.grid._mesh
         return cache
 
     def evolution_rate(self, state: TField, t: float = 0.0) -> TField:
